@@ -109,17 +109,17 @@ let () =
               | Done l -> if nats "." l <> nats "." (ipaths_bounded_ref g k) then Buffer.add_string buf " ipmodel!=ref"
               | _ -> Buffer.add_string buf " ipmodel-panic") bounds;
         (* the model of NumberOfInducedCycles (Invariants/CycleICModel.v, proved equal to the
-           reference in Props/C10_cycles.v): every bound when n <= 5, the bounds -1, 0, 3, 4 above; "icmodel!=ref" never seen *)
+           reference in Props/C10_cycles.v): every bound when n <= 6, the bounds -1, 0, 3, 4 when n = 7; "icmodel!=ref" never seen *)
         List.iter (fun k ->
-            if n <= 5 || List.mem (int_of_z k) [-1; 0; 3; 4] then
+            if n <= 6 || List.mem (int_of_z k) [-1; 0; 3; 4] then
               match number_of_induced_cycles_go g k with
               | Done l -> if nats "." l <> nats "." (icycles_bounded_ref g k) then Buffer.add_string buf " icmodel!=ref"
               | _ -> Buffer.add_string buf " icmodel-panic") bounds;
         (* the model of NumberOfCycles (Invariants/CycleNCModel.v: Paton's fundamental cycles and
            Gibbs' algorithm per block, on top of the model of BiconnectedComponents): must equal
            the reference ("ncmodel!=ref" never seen).  Gibbs' algorithm keeps all 2^(m-n+1) - 1
-           combinations: the model is run when m - n < 10 *)
-        if !m - n < 10 then begin
+           combinations: the model is run when m - n < 12 *)
+        if !m - n < 12 then begin
           match number_of_cycles_go g with
           | Done l -> if nats "." l <> nats "." (cycles_ref g) then Buffer.add_string buf " ncmodel!=ref"
           | _ -> Buffer.add_string buf " ncmodel-panic"
